@@ -250,7 +250,7 @@ def _pyobs_child(script, inputs):
         LED.Led.flash_pattern = flash
         try:
             LCDM = import_module("Reduino.Displays.LCD")
-            LCDM.LCD.glyph = lambda self, slot, bitmap: obs.append(["G", [int(x) for x in bitmap]])
+            LCDM.LCD.glyph = lambda self, slot, bitmap: obs.append(["G", [int(x) & 0x1F for x in list(bitmap)[:8]]])
         except Exception:  # noqa
             pass
         sys.stdout = open("/dev/null", "w")
